@@ -9,14 +9,14 @@ W=/tmp/wt_try_$$
 git -C /repo worktree add --detach $W HEAD >/dev/null 2>&1 || exit 2
 cd $W
 echo "== demo on clean tree"
-(timeout -s KILL 400 /venv/bin/python -m pytest -q -p no:cacheprovider "$D/demo_test.py" > /tmp/seed_demo_clean.log 2>&1; true)
-grep -a -E "passed|failed|error" /tmp/seed_demo_clean.log | tail -1
+(timeout -s KILL 400 /venv/bin/python -m pytest -q -p no:cacheprovider "$D/demo_test.py" > /tmp/seed_demo_clean_$$.log 2>&1; true)
+grep -a -E "passed|failed|error" /tmp/seed_demo_clean_$$.log | tail -1
 git apply "$D/patch.diff" || { echo "patch does not apply"; git -C /repo worktree remove --force $W; exit 2; }
 echo "== demo with patch"
-(timeout -s KILL 400 /venv/bin/python -m pytest -q -p no:cacheprovider "$D/demo_test.py" > /tmp/seed_demo_patched.log 2>&1; true)
-grep -a -E "passed|failed|error" /tmp/seed_demo_patched.log | tail -1
+(timeout -s KILL 400 /venv/bin/python -m pytest -q -p no:cacheprovider "$D/demo_test.py" > /tmp/seed_demo_patched_$$.log 2>&1; true)
+grep -a -E "passed|failed|error" /tmp/seed_demo_patched_$$.log | tail -1
 echo "== check $P --tier $T $@ (VERIF_REPO=$W)"
-(cd /verif && VERIF_REPO=$W ./check "$P" --tier "$T" "$@" > /tmp/seed_check.log 2>&1; echo "exit=$?" >> /tmp/seed_check.log)
-grep -E "VIOLATION|exit=|refuted|HARNESS|KNOWN" /tmp/seed_check.log | cut -c1-220 | head -12
+(cd /verif && VERIF_REPO=$W ./check "$P" --tier "$T" "$@" > /tmp/seed_check_$$.log 2>&1; echo "exit=$?" >> /tmp/seed_check_$$.log)
+grep -E "VIOLATION|exit=|refuted|HARNESS|KNOWN" /tmp/seed_check_$$.log | cut -c1-220 | head -12
 git -C /repo worktree remove --force $W
 git -C /verif checkout -- evidence replays 2>/dev/null; git -C /verif clean -fq replays evidence 2>/dev/null
